@@ -100,6 +100,7 @@ extern "C" void harness(void)
   catch (user_exc &u) { threw_user = true; uv = u.v; }
   catch (vf_reported &) { threw_report = true; }
   VCLAIM(8, !threw_report && vf_nreports == 0, "C08.some_expectation_accepts");
+  VCLAIM(16, vf_nok == 1, "C16.exactly_one_ok_report_for_an_accepted_call_whatever_its_actions_do");
   // expected log
   unsigned long want = 0; unsigned nwant = 0;
   for (int i = 0; i < VF_W && i <= first_false; ++i) { want = want * 8 + (1 + i); ++nwant; }   // WITH: declaration order, stop at first false
